@@ -238,6 +238,39 @@ func isPrimary(e Expr) bool {
 	return true
 }
 
+// CompoundParts returns the parts of a compound as they are printed — to Elvish
+// source AND to the Coq term, so both denote the same program.  In Elvish a
+// primary directly followed by [ ... ] is indexing, and juxtaposed compounds
+// flatten; so a part that is itself a compound, and a non-first part whose text
+// would start with '[' (list / map literal, or an indexing whose head is one),
+// is wrapped in a braced list {part}, which evaluates to the same values.
+func CompoundParts(e ECompound) []Expr {
+	out := make([]Expr, len(e.Es))
+	for i, p := range e.Es {
+		switch q := p.(type) {
+		case ECompound:
+			out[i] = EBraced{[]Expr{q}}
+		default:
+			if i > 0 && startsWithBracket(p) {
+				out[i] = EBraced{[]Expr{p}}
+			} else {
+				out[i] = p
+			}
+		}
+	}
+	return out
+}
+
+func startsWithBracket(e Expr) bool {
+	switch e := e.(type) {
+	case EList, EMap:
+		return true
+	case EIndex:
+		return startsWithBracket(e.E)
+	}
+	return false
+}
+
 func ExprSrc(e Expr) string {
 	switch e := e.(type) {
 	case EStr:
@@ -279,7 +312,7 @@ func ExprSrc(e Expr) string {
 	case ECompound:
 		var sb strings.Builder
 		prevStr := false
-		for i, p := range e.Es {
+		for _, p := range CompoundParts(e) {
 			isStr := false
 			switch p := p.(type) {
 			case EStr:
@@ -289,15 +322,6 @@ func ExprSrc(e Expr) string {
 				} else {
 					sb.WriteString(quote(p.S))
 					isStr = true
-				}
-			case ECompound:
-				sb.WriteString("{" + ExprSrc(p) + "}")
-			case EList, EMap:
-				// a list literal right after another part would be parsed as an index
-				if i > 0 {
-					sb.WriteString("{" + ExprSrc(p) + "}")
-				} else {
-					sb.WriteString(ExprSrc(p))
 				}
 			default:
 				sb.WriteString(ExprSrc(p))
@@ -516,7 +540,7 @@ func ExprCoq(e Expr) string {
 	case EIndex:
 		return App("EIndex", ExprCoq(e.E), exprsCoq(e.Ix))
 	case ECompound:
-		return App("ECompound", exprsCoq(e.Es))
+		return App("ECompound", exprsCoq(CompoundParts(e)))
 	}
 	panic(fmt.Sprintf("ExprCoq: %T", e))
 }
